@@ -143,6 +143,20 @@ def handleC20 (cmd : String) (args : List Sexp) : Option Sexp :=
       let others ← others.mapM tree?
       let out : Option TreeS ← (match out with | .atom "none" => some none | x => (tree? x).map some)
       pure (resToSexp (mtApply o (symFn drop) sched self others out))
+  | "c20.lazy_apply", [o, .list drop, .list pre, .list members, .list others, outs] => do
+      let o ← opts? o
+      let drop ← drop.mapM asAtom?
+      let pre ← pre.mapM asAtom?
+      let members ← members.mapM tree?
+      let others ← others.mapM (fun l => match l with | .list ts => ts.mapM tree? | _ => none)
+      let outs : Option (List TreeS) ← (match outs with
+        | .atom "none" => some none
+        | .list ts => (ts.mapM tree?).map some
+        | _ => none)
+      match applyLazy o (symFn drop) pre members others outs with
+      | .error e => pure (tagged "err" [.atom e.toStr])
+      | .ok none => pure (.list [.atom "none"])
+      | .ok (some ms) => pure (tagged "ok" (ms.map treeToSexp))
   | _, _ => none
 
 end TdVerif.Drive
